@@ -1,6 +1,6 @@
 // `bs` executor: N keep-alive connections opened at once against a fresh server; every one of them
 // must get its answer while all the others stay open (nobody closes until the end).
-// case line:  bs <u|t> <N> <handlers> [silent=<k>]
+// case line:  bs <u|t> <N> <handlers> [silent=<k>] [v10=1] [stall=<k>]
 // observation: answered=<k> of=<N> wrong=<k> delivered=<k>
 use std::io::{Read, Write};
 use std::sync::atomic::{AtomicBool, AtomicUsize, Ordering};
@@ -18,6 +18,10 @@ pub fn run_case(f: &[&str]) -> String {
     let server = Arc::new(if kind == "t" { Server::http("127.0.0.1:0").unwrap() } else { Server::http_unix(&path).unwrap() });
     let stop = Arc::new(AtomicBool::new(false));
     let delivered = Arc::new(AtomicUsize::new(0));
+    // v10=1: the N clients speak HTTP/1.0 with keep-alive and are answered with responses of undeclared length;
+    // stall=<k>: k further HTTP/1.0 connections opened first whose 64 MiB answers of undeclared length are never read
+    let v10 = f.iter().any(|x| *x == "v10=1");
+    let stall: usize = f.iter().find_map(|x| x.strip_prefix("stall=")).map(|x| x.parse().unwrap()).unwrap_or(0);
     let mut hs = Vec::new();
     for _ in 0..handlers {
         let s = server.clone();
@@ -26,9 +30,23 @@ pub fn run_case(f: &[&str]) -> String {
         hs.push(std::thread::spawn(move || {
             while !st.load(Ordering::SeqCst) {
                 if let Ok(Some(rq)) = s.recv_timeout(Duration::from_millis(20)) {
+                    if rq.url().starts_with("/stall") {
+                        // a response of unknown length that the client never reads: this answering thread stays blocked
+                        // in the write for as long as the connection lives (it has its own thread; nobody else may wait)
+                        std::thread::spawn(move || {
+                            let body = std::io::repeat(b'z').take(64 * 1024 * 1024);
+                            let _ = rq.respond(Response::new(tiny_http::StatusCode(200), vec![], body, None, None));
+                        });
+                        continue;
+                    }
                     d.fetch_add(1, Ordering::SeqCst);
                     let body = rq.url().to_string();
-                    let _ = rq.respond(Response::from_string(body));
+                    if v10 {
+                        // unknown length: for an HTTP/1.0 client the library has to gather the body first
+                        let _ = rq.respond(Response::new(tiny_http::StatusCode(200), vec![], std::io::Cursor::new(body.into_bytes()), None, None));
+                    } else {
+                        let _ = rq.respond(Response::from_string(body));
+                    }
                 }
             }
         }));
@@ -48,6 +66,19 @@ pub fn run_case(f: &[&str]) -> String {
     if silent > 0 {
         std::thread::sleep(Duration::from_millis(30));
     }
+    let mut stalled: Vec<crate::cv::Conn> = Vec::new();
+    for k in 0..stall {
+        let mut c = if kind == "t" {
+            crate::cv::Conn::T(std::net::TcpStream::connect(server.server_addr().to_ip().unwrap()).unwrap())
+        } else {
+            crate::cv::Conn::U(std::os::unix::net::UnixStream::connect(&path).unwrap())
+        };
+        let _ = c.write_all(format!("GET /stall{} HTTP/1.0\r\nConnection: keep-alive\r\n\r\n", k).as_bytes());
+        stalled.push(c);
+    }
+    if stall > 0 {
+        std::thread::sleep(Duration::from_millis(200));
+    }
     let mut conns: Vec<crate::cv::Conn> = Vec::new();
     for _ in 0..n {
         let c = if kind == "t" {
@@ -61,7 +92,11 @@ pub fn run_case(f: &[&str]) -> String {
         conns.push(c);
     }
     for (i, c) in conns.iter_mut().enumerate() {
-        let _ = c.write_all(format!("GET /c{} HTTP/1.1\r\nHost: h\r\n\r\n", i).as_bytes());
+        if v10 {
+            let _ = c.write_all(format!("GET /c{} HTTP/1.0\r\nConnection: keep-alive\r\n\r\n", i).as_bytes());
+        } else {
+            let _ = c.write_all(format!("GET /c{} HTTP/1.1\r\nHost: h\r\n\r\n", i).as_bytes());
+        }
     }
     let deadline = Instant::now() + Duration::from_millis(2500);
     let mut got: Vec<Vec<u8>> = vec![Vec::new(); n];
@@ -91,7 +126,7 @@ pub fn run_case(f: &[&str]) -> String {
     let mut wrong = 0;
     for i in 0..n {
         let want = format!("/c{}", i);
-        if got[i].starts_with(b"HTTP/1.1 200") && got[i].ends_with(want.as_bytes()) {
+        if (got[i].starts_with(b"HTTP/1.1 200") || got[i].starts_with(b"HTTP/1.0 200")) && got[i].ends_with(want.as_bytes()) {
             answered += 1;
         } else if !got[i].is_empty() {
             wrong += 1;
@@ -103,6 +138,7 @@ pub fn run_case(f: &[&str]) -> String {
     }
     drop(conns);
     drop(silent_conns);
+    drop(stalled);
     let d = delivered.load(Ordering::SeqCst);
     drop(server);
     let _ = std::fs::remove_file(&path);
